@@ -4,6 +4,7 @@
    Statements only; proofs in Proofs/ApiProofs.v. *)
 From FR Require Import Base Utf8 Api ApiProofs.
 From FR Require Import State Utf8Facts Chars Ast Analyze Sem SemSound Vm Compile Param ArrowA CompileCorrect KeepOut EndToEnd ApiVm Parse ParseInv ParseIdx FromPattern.
+From FR Require Import ApiTotal.
 From Coq Require Import NArith Lia.
 
 
@@ -116,3 +117,41 @@ Print Assumptions C08_fused_after_err.
 Print Assumptions C08_vm_sorted.
 Print Assumptions C08_vm_is_reference_iteration.
 Print Assumptions C08_from_pattern_string.
+
+(* ---- the same with NO assumption on the model's step budget: termination of the VM loop
+   (Proofs/Terminates.v) gives a budget for each start offset, finitely many offsets are ever
+   searched, so from some budget on find_iter over the compiled pattern yields valid, sorted,
+   non-overlapping spans, at most |text|+2 items, and - unless a StackOverflow /
+   BacktrackLimitExceeded error is reported - exactly the reference iteration ---- *)
+Theorem C08_find_iter_total_from_pattern_string : forall (re : list nat), valid_text re ->
+  forall (e : expr) (st : pst), parse re = POk (e, st) ->
+  condok true e -> kok true e ->
+  forall (p : prog) (ng : nat), regex_new (bs_of st) e = inr (RFancy p ng) ->
+  forall cs : list (list nat), valid_chars cs -> (N.of_nat (length (concat cs)) < usize_max)%N ->
+  forall max_st limit,
+  exists n0, forall fuelv, n0 <= fuelv ->
+  forall n,
+  chain (concat cs) 0 (collect (concat cs) (vsearch cs p ng max_st limit fuelv) n m_init) /\
+  (length (collect (concat cs) (vsearch cs p ng max_st limit fuelv) n m_init) <= length (concat cs) + 2) /\
+  (no_err (collect (concat cs) (vsearch cs p ng max_st limit fuelv) n m_init) ->
+   spans (collect (concat cs) (vsearch cs p ng max_st limit fuelv) n m_init) =
+   spans (collect (concat cs) (rsearch cs e) n m_init)).
+Proof.
+  intros re Hv e st Hp Hc Hk p ng Hn cs W Hl max_st limit.
+  destruct (pattern_api_total re Hv e st Hp Hc Hk p ng Hn cs W Hl max_st limit) as [n0 H].
+  exists n0. intros fuelv Hf n. destruct (H fuelv Hf) as (Hfi & _ & _). exact (Hfi n).
+Qed.
+Check C08_find_iter_total_from_pattern_string : forall (re : list nat), valid_text re ->
+  forall (e : expr) (st : pst), parse re = POk (e, st) ->
+  condok true e -> kok true e ->
+  forall (p : prog) (ng : nat), regex_new (bs_of st) e = inr (RFancy p ng) ->
+  forall cs : list (list nat), valid_chars cs -> (N.of_nat (length (concat cs)) < usize_max)%N ->
+  forall max_st limit,
+  exists n0, forall fuelv, n0 <= fuelv ->
+  forall n,
+  chain (concat cs) 0 (collect (concat cs) (vsearch cs p ng max_st limit fuelv) n m_init) /\
+  (length (collect (concat cs) (vsearch cs p ng max_st limit fuelv) n m_init) <= length (concat cs) + 2) /\
+  (no_err (collect (concat cs) (vsearch cs p ng max_st limit fuelv) n m_init) ->
+   spans (collect (concat cs) (vsearch cs p ng max_st limit fuelv) n m_init) =
+   spans (collect (concat cs) (rsearch cs e) n m_init)).
+Print Assumptions C08_find_iter_total_from_pattern_string.
